@@ -202,8 +202,9 @@ def gen_query(rng, rows):
 
 def violates_vs(rng):
     """Real ValueSet vs Python-set reference on one random op sequence."""
-    from vc2_conformance.constraint_table import ValueSet
+    from vc2_conformance.constraint_table import ValueSet, AnyValue
 
+    U = set(range(-4, 24))   # the universe of the reference: the wildcard set contains all of it
     sets, refs, log = [], [], []
     for _ in range(rng.randrange(2, 12)):
         c = rng.random()
@@ -211,31 +212,43 @@ def violates_vs(rng):
             sets.append(ValueSet())
             refs.append(set())
             log.append("N")
+        elif c < 0.27:
+            sets.append(AnyValue())
+            refs.append(None)      # None = everything
+            log.append("A")
         elif c < 0.5:
             i, v = rng.randrange(len(sets)), rng.randrange(-2, 16)
+            if refs[i] is None:
+                continue
             sets[i].add_value(v)
             refs[i].add(v)
             log.append("V%d,%d" % (i, v))
         elif c < 0.8:
             i, lo = rng.randrange(len(sets)), rng.randrange(-2, 16)
+            if refs[i] is None:
+                continue
             hi = lo + rng.randrange(0, 5)
             sets[i].add_range(lo, hi)
             refs[i] |= set(range(lo, hi + 1))
             log.append("R%d,%d,%d" % (i, lo, hi))
         else:
             i, j = rng.randrange(len(sets)), rng.randrange(len(sets))
+            if refs[i] is None and refs[j] is not None:
+                continue          # (AnyValue + ValueSet is not offered by the real class in this order)
             sets.append(sets[i] + sets[j])
-            refs.append(refs[i] | refs[j])
+            refs.append(None if (refs[i] is None or refs[j] is None) else refs[i] | refs[j])
             log.append("U%d,%d" % (i, j))
         for k, (s, r) in enumerate(zip(sets, refs)):
             got = set(v for v in range(-4, 24) if v in s)
-            if got != r:
-                return {"ops": log, "why": "set %d contains %s, expected %s" % (k, sorted(got), sorted(r))}
-            if set(s.iter_values()) != r:
+            if got != (U if r is None else r):
+                return {"ops": log, "why": "set %d contains %s, expected %s" % (k, sorted(got), "everything" if r is None else sorted(r))}
+            if r is not None and set(s.iter_values()) != r:
                 return {"ops": log, "why": "iter_values of set %d = %s, expected %s" % (k, sorted(s.iter_values()), sorted(r))}
         for i in range(len(sets)):
             for j in range(len(sets)):
-                if sets[i].is_disjoint(sets[j]) != (not (refs[i] & refs[j])):
+                ri = U if refs[i] is None else refs[i]
+                rj = U if refs[j] is None else refs[j]
+                if sets[i].is_disjoint(sets[j]) != (not (ri & rj)):
                     return {"ops": log, "why": "is_disjoint(%d,%d)=%s" % (i, j, sets[i].is_disjoint(sets[j]))}
     return None
 
